@@ -1290,5 +1290,7 @@ def run(chk):
 
     from verif import fallthrough
     fallthrough.run(chk, "C12", floor=2)
+    from verif import argorder
+    argorder.run(chk, "C12", floor=38)
 
     chk.assumptions += ["role table in rules/C12.py: FieldData::data/value_status are per active cell, global_* per grid cell, deck_* per input-box cell; Box::global_index_list() stores the global index in .active_index (documented)"]
